@@ -188,10 +188,14 @@ class Channel(BaseChannel):
             raise AMQPInvalidArgument('reply_code should be an integer')
         elif not compatibility.is_string(reply_text):
             raise AMQPInvalidArgument('reply_text should be a string')
+        elsewhere = False
         try:
             with self._close_lock:
                 # Only one caller may move the channel from open to closing.
                 forced = self._connection.is_closed or not self.is_open
+                # Whoever is closing the channel already marks it closed,
+                # once the Close (or CloseOk) frame has been written.
+                elsewhere = self.is_closing
                 if not forced:
                     self.set_state(self.CLOSING)
             if forced:
@@ -211,8 +215,9 @@ class Channel(BaseChannel):
         finally:
             if self._inbound:
                 self._inbound.clear()
-            with self._close_lock:
-                self.set_state(self.CLOSED)
+            if not elsewhere:
+                with self._close_lock:
+                    self.set_state(self.CLOSED)
         LOGGER.debug('Channel #%d Closed', self.channel_id)
 
     def check_for_errors(self,):
